@@ -151,4 +151,7 @@ def configs(tier):
     jobs = [("vf.props.solvers", "c16_diagonal", c) for c in cfgs]
     for name in ("boson_scalar", "boson_2x2", "boson_2blocks", "spin_boson", "fermions", "fermion_boson"):
         jobs.append(("vf.props.secondq", "c16_2nd_quant", dict(set=name, _job="2nd_quant")))
+    from .implicit import configs_c16_direct
+
+    jobs += configs_c16_direct(tier)
     return jobs
